@@ -423,6 +423,7 @@ def check_envelope(pid):
             if q:
                 break
         if pid == "C10":
+            life_part(c, "C10", q)
             cp = c.case_path("C10tok")
             c.mc("Token", "MC_C07.cfg", dict(Size="quick" if q else "thorough", Deviations="{}", Emit="Emit"), timeout=1500, case_file=cp,
                  label="constructors: ConstructorsWellFormed over option sets x special classes (undefined principals, nonce lengths)")
@@ -450,6 +451,23 @@ def check_envelope(pid):
     return run
 
 
+def life_part(c, pid, q):
+    """Life.tla: constructor, options applied in order, seal, another seal in between, unseal."""
+    runs = [dict(MaxOpts=2, Exclude="{}")] + ([] if q else [dict(MaxOpts=3, Exclude='{"Meta", "Cause", "Iat", "NoIat", "Nbf"}')])
+    for consts in runs:
+        cp = c.case_path(pid + "life")
+        c.mc("Life", "MC_Life.cfg", dict(Deviations="{}", Emit="Emit", **consts), timeout=1500, case_file=cp,
+             label="token life cycle: options in order -> validate -> seal -> (another seal) -> unseal: RoundTrip, ConstructorsWellFormed")
+        c.replay("life:" + pid, cp, rule="Life.tla: every sequence of <=%d options (audience = subject / issuer / other / undefined, repeated and "
+                 "merged arguments, duplicate metadata keys, nonce lengths 0/5/12/16, sub-second / far / epoch / negative time bounds, Root "
+                 "overriding WithSubject) of both token types, sealed in both codecs, another token sealed in between or not, unsealed by the "
+                 "generic and the typed decoder; non-trivial = two or more options or an interleaved seal" % consts["MaxOpts"])
+        os.remove(cp)
+    for dev in ["AudDroppedWhenSubject", "EncodeBufferPooled", "BoundsRoundedOnSeal", "IatDefaultLost"]:
+        c.mc("Life", "MC_Life.cfg", dict(MaxOpts=1, Exclude="{}", Deviations='{"%s"}' % dev, Emit=""), expect_violation="RoundTrip",
+             label="sensitivity: " + dev)
+
+
 def check_C07(tier):
     c = Ctx("C07", tier)
     q = tier == "quick"
@@ -459,6 +477,7 @@ def check_C07(tier):
     for dev in ["TimestampBoundOnDecodeOnly", "DagJsonIntegralFloat"]:
         c.mc("Token", "MC_C07.cfg", dict(Size="thorough", Deviations='{"%s"}' % dev, Emit=""), expect_violation="RoundTrip",
              label="sensitivity: " + dev)
+    life_part(c, "C07", q)
     c.replay("token:C07", cp, rule="every subset of options of both token types x one special value class (undefined principals, nonce "
              "lengths, extreme time bounds, 13 argument/metadata value classes with several concrete values each) x "
              + ("2 of the 24" if q else "all 24") + " (algorithm, codec, decoder) combinations; both decoders are always run and "
